@@ -1,6 +1,7 @@
 package rules
 
 import (
+	"go/token"
 	"sort"
 	"strings"
 
@@ -79,6 +80,11 @@ func cloneElements(fn *ssa.Function, withClosures bool) map[string]bool {
 						kind = "defer "
 					}
 					out[kind+name+"("+strings.Join(args, ",")+")"] = true
+				case *ssa.BinOp:
+					// comparisons against limit-sized constants (MaxTokens, MaxInputSize, depth limits): the clones carry the same test
+					if el := limitComparison(x); el != "" {
+						out[el] = true
+					}
 				case *ssa.Store:
 					if fa, ok := x.Addr.(*ssa.FieldAddr); ok {
 						if n := core.NamedOf(fa.X.Type()); n != nil && fn.Signature.Recv() != nil && n == core.NamedOf(fn.Signature.Recv().Type()) {
@@ -90,6 +96,26 @@ func cloneElements(fn *ssa.Function, withClosures bool) map[string]bool {
 		}
 	}
 	return out
+}
+
+// limitComparison: `x OP K` with an integer constant K of at least 1000 on one side, written with K on the right.
+func limitComparison(x *ssa.BinOp) string {
+	flip := map[token.Token]token.Token{token.LSS: token.GTR, token.GTR: token.LSS, token.LEQ: token.GEQ, token.GEQ: token.LEQ, token.EQL: token.EQL, token.NEQ: token.NEQ}
+	if _, ok := flip[x.Op]; !ok {
+		return ""
+	}
+	op := x.Op
+	k, ok := core.ConstInt(x.Y)
+	if !ok {
+		if k, ok = core.ConstInt(x.X); !ok {
+			return ""
+		}
+		op = flip[op]
+	}
+	if k < 1000 && k > -1000 { // small constants are capacity heuristics and loop bounds, not limits
+		return ""
+	}
+	return sprintf("compare %s %d", op, k)
 }
 
 // cloneDiff returns elements only in a and only in b.
